@@ -270,18 +270,34 @@ def _bytes(*a, **k):
 
 
 def _deepcopy(x, _memo=None):
-    """copy.deepcopy for plain containers of scalars and host sentinels (tables, label lists)."""
+    """copy.deepcopy for containers of scalars, host sentinels and instances of repository classes (attribute dictionaries
+    copied recursively, shared sub-objects and back references kept through the memo)."""
+    memo = {} if _memo is None else _memo
+    if id(x) in memo:
+        return memo[id(x)]
+    if isinstance(x, Instance):
+        new = Instance(x._cls, x._interp)
+        memo[id(x)] = new
+        d = object.__getattribute__(new, '_d')
+        for k, v in object.__getattribute__(x, '_d').items():
+            d[k] = _deepcopy(v, memo)
+        return new
     if isinstance(x, list):
-        return [_deepcopy(v) for v in x]
+        new = []
+        memo[id(x)] = new
+        new.extend(_deepcopy(v, memo) for v in x)
+        return new
     if isinstance(x, tuple):
-        return tuple(_deepcopy(v) for v in x)
+        return tuple(_deepcopy(v, memo) for v in x)
     if isinstance(x, dict):
-        return {k: _deepcopy(v) for k, v in x.items()}
+        new = type(x)() if not hasattr(x, 'default_factory') else type(x)(x.default_factory)
+        memo[id(x)] = new
+        for k, v in x.items():
+            new[_deepcopy(k, memo)] = _deepcopy(v, memo)
+        return new
     if isinstance(x, set):
-        return {_deepcopy(v) for v in x}
-    if isinstance(x, (bool, int, str, float, bytes, type(None))) or not isinstance(x, (Instance,)):
-        return x          # scalars, sentinels (DontCare, Undefined) and host values are shared, as immutable objects are
-    raise AnalysisError('deepcopy of an instance of a repository class is not modelled')
+        return {_deepcopy(v, memo) for v in x}
+    return x          # scalars, sentinels (DontCare, Undefined), gate types and other host values are shared, as immutable objects are
 
 
 _CLASS_CACHE: dict = {}
@@ -986,7 +1002,7 @@ class Interp:
         if obj in (int, str, bytes, dict, list, tuple, set, bytearray, float) or (isinstance(obj, type) and getattr(obj, '__module__', '') in ('itertools', 'collections', 'functools', 'operator')):
             return getattr(obj, attr)
         if isinstance(obj, (Host, EnumMember)) or isinstance(
-            obj, (list, tuple, dict, str, set, frozenset, int, bool, range, bytes, bytearray, float)
+            obj, (list, tuple, dict, str, set, frozenset, int, bool, range, bytes, bytearray, float, __import__('collections').deque)
         ):
             try:
                 return getattr(obj, attr)
